@@ -83,6 +83,15 @@ CHECKS = {
               'recomputed from the tree and from derive() with the spec\'s own tables and compared with the exact max-plus optimum obtained by dense '
               'Kleene iteration and with the Viterbi-semiring sum_product. A hook counts einsum calls with 0, 1, >=2 summed-out indices.'),
         design_ref='DESIGN.md §4 C04'),
+    'C05': dict(
+        technique='boundary monitor on factorize_* with independent inliner + hypergraph isomorphism oracle, sum-product differential, spy hook on tree_decomposition (runtime monitoring)',
+        text=('Runtime monitoring: generated grammars (isolated nodes, several components, nullary and repeated-attachment edges, externals anywhere, '
+              'rules up to 7 nodes, a stratum whose terminal names look like fresh names) are factorized through factorize_rule (labels None/given), '
+              'factorize_hrg and factorize_fgg under all three methods. An independent plain-data inliner replaces every fresh nonterminal by its '
+              'unique rule and a backtracking isomorphism checker compares the result with the original rule; fresh names, rule widths, start, '
+              'terminals, factors and domains are checked, the sum-product of the factorized grammar is compared with the reference in 4 semirings, '
+              'and a spy hook on tree_decomposition records which method actually ran for each entry point.'),
+        design_ref='DESIGN.md §4 C05'),
 }
 
 NOT_BUILT = {}
